@@ -23,7 +23,12 @@ for r in rows:
     out.append("| %s | %s | %s | `%s` | %s | %s |" % r)
 n = len(rows)
 c = sum(1 for r in rows if r[4] == "**caught**")
-out += ["", "%d seeded changes, %d caught (exit 1 with a VIOLATION line), %d not caught." % (n, c, n - c), "",
-        "The misses are in code that no obligation decides (see DESIGN.md section 0 'what is NOT decided'); they are kept here on purpose."]
+u = sum(1 for r in rows if r[4].startswith("UNDECIDED"))
+out += ["", "%d seeded changes: %d caught (exit 1 with a VIOLATION line), %d undecided (exit 2: the check lost an anchor or met a construct it has no rule for - neither accepted nor reported as a violation), %d missed (exit 0)." % (n, c, u, n - c - u), "",
+        "The misses and the undecided ones are in code that no obligation decides or that the change rewrote beyond what the unit can follow (see DESIGN.md sections 0 and 7); they are kept here on purpose.", ""]
+for m in sorted(glob.glob(os.path.join(VERIF, "seeded", "*", "meta.json"))):
+    d = json.load(open(m))
+    if d.get("confirmation_note"):
+        out.append("* %s: %s" % (d["seed"], d["confirmation_note"]))
 open(os.path.join(VERIF, "seeded", "README.md"), "w").write("\n".join(out) + "\n")
 print("wrote seeded/README.md:", n, "seeds,", c, "caught")
